@@ -473,3 +473,118 @@ def with_helpers(p, f, depth=2, same_module_only=True):
 def nodes_of(funcs):
     for g in funcs:
         yield from walk_no_nested(g.node)
+
+
+def scatter_combinator_inner(p):
+    """the closure returned by adapter/numpy/classical_from_numpy.update_at (whatever it is called)"""
+    outer = p.func("update_at", "adapter.numpy.classical_from_numpy")
+    inners = [g for g in p.funcs.values() if g.parent is outer]
+    rets = [norm(r.value) for r in walk_no_nested(outer.node) if isinstance(r, ast.Return) and r.value is not None]
+    inners = [g for g in inners if g.name in rets] or inners
+    if len(inners) != 1:
+        raise AnalysisError(f"unrecognised idiom: update_at combinator has {len(inners)} candidate closures")
+    return outer, inners[0]
+
+
+def origin_params(f, e, depth=0):
+    """parameters of f that the value `e` is (a rebinding of): follows `v = g(v, ...)` rebinding chains and
+    position-preserving tuple unpacking `a, b, c = to_tensor(x, y, z)`."""
+    if depth > 10 or e is None:
+        return set()
+    if isinstance(e, ast.Name):
+        out = set()
+        if e.id in f.params:
+            out.add(e.id)
+        for n in walk_no_nested(f.node):
+            if isinstance(n, ast.Assign):
+                for t in n.targets:
+                    if isinstance(t, ast.Name) and t.id == e.id:
+                        if isinstance(n.value, ast.Call) and n.value.args and not (isinstance(n.value.args[0], ast.Name) and n.value.args[0].id == e.id and e.id not in f.params and False):
+                            a0 = n.value.args[0]
+                            if isinstance(a0, ast.Name) and a0.id == e.id:
+                                continue  # v = g(v, ...): same value lineage
+                            out |= origin_params(f, a0, depth + 1)
+                        elif isinstance(n.value, ast.Name):
+                            out |= origin_params(f, n.value, depth + 1)
+                    elif isinstance(t, ast.Tuple) and isinstance(n.value, ast.Call):
+                        names = [x.id if isinstance(x, ast.Name) else None for x in t.elts]
+                        if e.id in names:
+                            i = names.index(e.id)
+                            if i < len(n.value.args) and not isinstance(n.value.args[i], ast.Starred):
+                                a = n.value.args[i]
+                                if isinstance(a, ast.Name) and a.id == e.id:
+                                    continue
+                                out |= origin_params(f, a, depth + 1)
+        return out
+    return set()
+
+
+import copy as _copy
+
+
+class _SubstNames(ast.NodeTransformer):
+    def __init__(self, mapping):
+        self.mapping = mapping
+
+    def visit_Name(self, node):
+        if isinstance(node.ctx, ast.Load) and node.id in self.mapping:
+            return _copy.deepcopy(self.mapping[node.id])
+        return node
+
+
+def expand_local_helper_calls(stmts, localfns, depth=0):
+    """Statement list in which every statement `helper(args...)` (helper = a function of `localfns`: name ->
+    FunctionDef) is replaced by the helper's body with parameters substituted by the arguments (one or two levels).
+    Lets block-structure rules treat `emit_with_side_effect(out, to_code, inputs, alias)` like the written-out code."""
+    from sa.core import set_parents
+
+    out = []
+    for st in stmts:
+        call = st.value if isinstance(st, ast.Expr) and isinstance(st.value, ast.Call) else None
+        fn = localfns.get(call.func.id) if call is not None and isinstance(call.func, ast.Name) else None
+        if fn is None or depth > 1:
+            out.append(st)
+            continue
+        params = [a.arg for a in fn.args.args]
+        mapping = {}
+        for i, a in enumerate(call.args):
+            if i < len(params) and not isinstance(a, ast.Starred):
+                mapping[params[i]] = a
+        for k in call.keywords:
+            if k.arg in params:
+                mapping[k.arg] = k.value
+        body = []
+        for b in fn.body:
+            if isinstance(b, ast.Expr) and isinstance(b.value, ast.Constant):
+                continue
+            nb = _SubstNames(mapping).visit(_copy.deepcopy(b))
+            ast.copy_location(nb, st)
+            for x in ast.walk(nb):
+                if not hasattr(x, "lineno"):
+                    x.lineno = st.lineno
+                    x.col_offset = 0
+            set_parents(nb)
+            nb._parent = getattr(st, "_parent", None)
+            body.append(nb)
+        out += expand_local_helper_calls(body, localfns, depth + 1)
+    return out
+
+
+def names_feeding(stmts, expr):
+    """names occurring in `expr`; if expr is a local name, the names occurring in everything assigned /
+    appended / extended to it within stmts"""
+    if not isinstance(expr, ast.Name):
+        return {x.id for x in ast.walk(expr) if isinstance(x, ast.Name)} if expr is not None else set()
+    out = set()
+    found = False
+    for st in stmts:
+        for n in ast.walk(st):
+            if isinstance(n, ast.Assign) and any(isinstance(t, ast.Name) and t.id == expr.id for t in n.targets):
+                found = True
+                out |= {x.id for x in ast.walk(n.value) if isinstance(x, ast.Name)}
+            elif isinstance(n, ast.AugAssign) and isinstance(n.target, ast.Name) and n.target.id == expr.id:
+                out |= {x.id for x in ast.walk(n.value) if isinstance(x, ast.Name)}
+            elif isinstance(n, ast.Call) and isinstance(n.func, ast.Attribute) and n.func.attr in ("append", "extend") and norm(n.func.value) == expr.id:
+                for a in n.args:
+                    out |= {x.id for x in ast.walk(a) if isinstance(x, ast.Name)}
+    return out if found else {expr.id}
